@@ -72,3 +72,8 @@ reg('C14', 'model_checking', 'H (history explorer with replay + reference state 
     'All lifecycle histories over three sandbox objects and 21 operations (create ok with two libraries / create fail / destroy / register / end owner / invoke by name) are explored breadth-first to depth 6/8 with deduplication; in every state the live list, the finder, allocation, free, app pointers, example-based data- and function-pointer translation and registration probes are compared with a reference state machine.',
     'mbox model backend (bool create, by-name lookup, registry membership); depth-bounded; objects whose create failed are unconstrained; private list/caches are read through -fno-access-control.',
     'DESIGN.md section 3, C14')
+
+reg('C19', 'fault_enumeration', 'T (call-tree and fault-position enumerator)', 'exhaustive enumeration of call trees x fault positions on the real code, log compared with a generated well-nested word',
+    'Every invocation/callback tree of depth <= 3 and width <= 2 over two sandboxes is executed with no fault and with an abort injected at every argument-conversion, callback-body and result-conversion position (pairs in the thorough tier); the transition-hook log, the record payloads and the timing vectors are compared with the word a pure walk of the tree prescribes.',
+    'mbox model backend under two ABIs (each realises three of the five conversion-fault kinds); aborts observed as exceptions; depth/width bounded.',
+    'DESIGN.md section 3, C19')
